@@ -183,14 +183,27 @@ pub fn run(opts: &HashMap<String, String>) -> i32 {
     // The combinators are pure: what they return cannot depend on how often or from how many threads they were used
     // before.  Pass 1 (recorded), a storm of unrecorded calls of every case, many threads nested deeply at the same
     // time (recorded as one summary), pass 2 (recorded).
-    all_cases();
+    // a panic of a combinator is data: it ends the pass, and the record that says so has no action in the specification
+    let guarded = |what: &str| {
+        if let Err(msg) = crate::catch(all_cases) {
+            trace::rec(json!({"ev":"pc_panic","pass":what,"msg":msg}));
+        }
+    };
+    guarded("first");
     let saved = trace::suspend();
     trace::open_null();
+    let mut storm_panic: Option<String> = None;
     for _ in 0..600 {
-        all_cases();
+        if let Err(msg) = crate::catch(all_cases) {
+            storm_panic = Some(msg);
+            break;
+        }
     }
     let _ = trace::close();
     trace::resume(saved);
+    if let Some(msg) = storm_panic {
+        trace::rec(json!({"ev":"pc_panic","pass":"repetition","msg":msg}));
+    }
     CALLS.with(|c| c.borrow_mut().clear());
     let (threads, depth) = (64usize, 40u32);
     let arrived = std::sync::Arc::new(std::sync::atomic::AtomicUsize::new(0));
@@ -202,7 +215,7 @@ pub fn run(opts: &HashMap<String, String>) -> i32 {
         .collect();
     let ok = handles.into_iter().map(|h| h.join().unwrap_or(false)).filter(|&b| b).count();
     trace::rec(json!({"ev":"nest","threads":threads,"depth":depth,"ok":ok}));
-    all_cases();
+    guarded("second");
     let n = trace::close();
     println!("{{\"cases\":{}}}", n - 1);
     0
